@@ -194,8 +194,50 @@ mod ffi {
 """
 
 
+def constructors_bridge():
+    """constructors that need a value of the type they construct, directly, through a second type, through a struct field, optionally;
+    every type also has a write-out method and an ordinary one (demo_gen renders a call, and its arguments, for such methods)"""
+    return """#[diplomat::bridge]
+mod ffi {
+    use diplomat_runtime::DiplomatWrite;
+    #[diplomat::opaque]
+    pub struct Node(pub u8);
+    #[diplomat::opaque]
+    pub struct Ping(pub u8);
+    #[diplomat::opaque]
+    pub struct Pong(pub u8);
+    #[diplomat::opaque]
+    pub struct Leaf(pub u8);
+    pub struct Holder<'a> { pub node: &'a Node, pub n: u8 }
+    impl Node {
+        #[diplomat::attr(auto, constructor)]
+        pub fn new(parent: &Node) -> Box<Node> { Box::new(Node(parent.0)) }
+        pub fn show(&self, w: &mut DiplomatWrite) {}
+        pub fn depth(&self, other: Option<&Node>) -> u8 { self.0 }
+    }
+    impl Ping {
+        #[diplomat::attr(auto, constructor)]
+        pub fn new(from: &Pong) -> Box<Ping> { Box::new(Ping(from.0)) }
+        pub fn show(&self, w: &mut DiplomatWrite) {}
+    }
+    impl Pong {
+        #[diplomat::attr(auto, constructor)]
+        pub fn new(from: &Ping, leaf: &Leaf) -> Box<Pong> { Box::new(Pong(from.0)) }
+        pub fn show(&self, leaf: &Leaf, w: &mut DiplomatWrite) {}
+    }
+    impl Leaf {
+        #[diplomat::attr(auto, constructor)]
+        pub fn new(n: u8) -> Box<Leaf> { Box::new(Leaf(n)) }
+        pub fn with_holder<'a>(&self, h: Holder<'a>, w: &mut DiplomatWrite) {}
+        pub fn show(&self, w: &mut DiplomatWrite) {}
+    }
+}
+"""
+
+
 def bridges():
-    return [("docs", docs_bridge()), ("docs_traits", docs_bridge(True)), ("special", special_bridge()), ("lifetimes", lifetimes_bridge())]
+    return [("docs", docs_bridge()), ("docs_traits", docs_bridge(True)), ("special", special_bridge()), ("lifetimes", lifetimes_bridge()),
+            ("constructors", constructors_bridge())]
 
 
 URL_ARGS = [[], ["-u", "*:https://example.org/api"], ["-u", "foo:https://foo.example/docs/", "-u", "bar:https://bar.example"]]
